@@ -262,7 +262,7 @@ theorem rel_addSpan (c : Cfg) (now : Int) (tr : Tr) (a : Arr) (root : Bool) (siz
     · simp only [hc, and_self, if_true, Option.some.injEq] at hl; omega
     · simp only [hc, if_false] at hl; exact h6 l hl
   · by_cases hc : 0 < c.spanLimit ∧ c.spanLimit < a.count + 1 ∧ a.limitAt = none
-    · simp only [hc, and_self, if_true, Option.isSome_some, true_iff]
+    · simp only [hc, and_self, if_true, Option.isSome_some]
     · simp only [hc, if_false]
       constructor
       · intro hs
@@ -661,6 +661,150 @@ theorem step_now_le (s : St) (o : Op) : s.now ≤ (step s o).1.now := by
     · split <;> exact Int.le_refl _
   | tick taken => simp only [step, tick]; split <;> exact Int.le_refl _
   | eject b i o => simp only [step, eject]; split <;> exact Int.le_refl _
+
+
+/-! ### the sorted-list priority queue and the loop of `TakeExpiredTraces` -/
+
+abbrev PQ := List (Nat × Int)
+def PQ.Sorted (q : PQ) : Prop := q.Pairwise (fun a b => a.2 ≤ b.2)
+
+theorem pqInsert_perm (k : Nat) (p : Int) (q : PQ) : (pqInsert k p q).Perm ((k, p) :: q) := by
+  induction q with
+  | nil => simp [pqInsert]
+  | cons e t ih =>
+    obtain ⟨k', p'⟩ := e
+    unfold pqInsert
+    split
+    · exact List.Perm.refl _
+    · exact (List.Perm.cons _ ih).trans (List.Perm.swap _ _ _)
+
+theorem pqInsert_sorted (k : Nat) (p : Int) (q : PQ) (h : PQ.Sorted q) : PQ.Sorted (pqInsert k p q) := by
+  induction q with
+  | nil => simp [pqInsert, PQ.Sorted]
+  | cons e t ih =>
+    obtain ⟨k', p'⟩ := e
+    unfold PQ.Sorted at h ih ⊢
+    rw [List.pairwise_cons] at h
+    unfold pqInsert
+    split
+    · rename_i hlt
+      rw [List.pairwise_cons]
+      refine ⟨?_, List.pairwise_cons.mpr h⟩
+      intro a ha
+      rcases List.mem_cons.mp ha with rfl | ha
+      · simp only; omega
+      · have := h.1 a ha; simp only at this ⊢; omega
+    · rename_i hnlt
+      rw [List.pairwise_cons]
+      refine ⟨?_, ih h.2⟩
+      intro a ha
+      rcases List.mem_cons.mp ((pqInsert_perm k p t).subset ha) with rfl | ha
+      · simp only; omega
+      · exact h.1 a ha
+
+theorem pqOfBuf_perm (buf : AList Nat Tr) : (pqOfBuf buf).Perm (buf.map (fun x => (x.1, x.2.sendBy))) := by
+  induction buf with
+  | nil => simp [pqOfBuf]
+  | cons e t ih =>
+    obtain ⟨id, tr⟩ := e
+    simp only [pqOfBuf, List.map_cons]
+    exact (pqInsert_perm _ _ _).trans (List.Perm.cons _ ih)
+
+theorem pqOfBuf_sorted (buf : AList Nat Tr) : PQ.Sorted (pqOfBuf buf) := by
+  induction buf with
+  | nil => simp [pqOfBuf, PQ.Sorted]
+  | cons e t ih =>
+    obtain ⟨id, tr⟩ := e
+    exact pqInsert_sorted _ _ _ ih
+
+def cap (max : Option Nat) (n len : Nat) : Nat :=
+  match max with
+  | none => len
+  | some m => m - n
+
+theorem takeLoop_eq (now : Int) (max : Option Nat) (q : PQ) (n : Nat) :
+    takeLoop now max q n =
+      (((q.takeWhile (fun e => decide (e.2 ≤ now))).take (cap max n q.length)).map (·.1)) := by
+  induction q generalizing n with
+  | nil => simp [takeLoop]
+  | cons e t ih =>
+    obtain ⟨k, p⟩ := e
+    cases max with
+    | none =>
+      simp only [takeLoop, cap, if_true, List.length_cons]
+      by_cases hp : now < p
+      · have : ¬ p ≤ now := by omega
+        simp [hp, this]
+      · have hle : p ≤ now := by omega
+        simp only [hp, if_false, List.takeWhile_cons, hle, decide_true, if_true, List.take_succ_cons,
+          List.map_cons]
+        rw [ih (n + 1)]
+        simp [cap]
+    | some m =>
+      simp only [takeLoop, cap]
+      by_cases hn : n < m
+      · simp only [hn, decide_true, if_true]
+        by_cases hp : now < p
+        · have : ¬ p ≤ now := by omega
+          simp [hp, this]
+        · have hle : p ≤ now := by omega
+          have hc : m - n = (m - (n + 1)) + 1 := by omega
+          simp only [hp, if_false, List.takeWhile_cons, hle, decide_true, if_true, hc,
+            List.take_succ_cons, List.map_cons]
+          rw [ih (n + 1)]
+          simp [cap]
+      · have hc : m - n = 0 := by omega
+        simp [hn, hc]
+
+theorem mem_takeWhile_of_sorted (now : Int) (q : PQ) (hs : PQ.Sorted q) (e : Nat × Int)
+    (he : e ∈ q) (hle : e.2 ≤ now) : e ∈ q.takeWhile (fun e => decide (e.2 ≤ now)) := by
+  induction q with
+  | nil => cases he
+  | cons a t ih =>
+    unfold PQ.Sorted at hs ih
+    rw [List.pairwise_cons] at hs
+    by_cases ha : a.2 ≤ now
+    · simp only [List.takeWhile_cons, ha, decide_true, if_true]
+      rcases List.mem_cons.mp he with rfl | het
+      · exact List.mem_cons_self
+      · exact List.mem_cons_of_mem _ (ih hs.2 het)
+    · rcases List.mem_cons.mp he with rfl | het
+      · exact absurd hle ha
+      · have := hs.1 e het; omega
+
+theorem length_takeWhile_of_sorted (now : Int) (q : PQ) (hs : PQ.Sorted q) :
+    (q.takeWhile (fun e => decide (e.2 ≤ now))).length = q.countP (fun e => decide (e.2 ≤ now)) := by
+  induction q with
+  | nil => rfl
+  | cons a t ih =>
+    unfold PQ.Sorted at hs ih
+    rw [List.pairwise_cons] at hs
+    by_cases ha : a.2 ≤ now
+    · simp only [List.takeWhile_cons, ha, decide_true, if_true, List.length_cons, List.countP_cons]
+      rw [ih hs.2]
+    · have hz : t.countP (fun e => decide (e.2 ≤ now)) = 0 := by
+        rw [List.countP_eq_zero]
+        intro e he
+        have := hs.1 e he
+        simp only [decide_eq_true_eq]; omega
+      simp [ha, hz]
+
+theorem mem_pq_iff {s : St} (hwf : AList.NoDupKeys s.buf) (k : Nat) (p : Int) :
+    (k, p) ∈ pqOfBuf s.buf ↔ ∃ tr, AList.get s.buf k = some tr ∧ tr.sendBy = p := by
+  rw [(pqOfBuf_perm s.buf).mem_iff]
+  simp only [List.mem_map, Prod.mk.injEq]
+  constructor
+  · rintro ⟨⟨id, tr⟩, hm, h1, h2⟩
+    simp only at h1 h2; subst h1
+    exact ⟨tr, AList.get_of_mem hwf hm, h2⟩
+  · rintro ⟨tr, hg, h2⟩
+    exact ⟨(k, tr), AList.mem_of_get hg, rfl, h2⟩
+
+theorem pq_keys_nodup {s : St} (hwf : AList.NoDupKeys s.buf) : ((pqOfBuf s.buf).map (·.1)).Nodup := by
+  have hp : ((pqOfBuf s.buf).map (·.1)).Perm (AList.keys s.buf) := by
+    have := (pqOfBuf_perm s.buf).map (·.1)
+    simpa [AList.keys, List.map_map, Function.comp_def] using this
+  exact hp.nodup_iff.mpr hwf
 
 
 end Refinery.Lemmas.Deadline
